@@ -573,3 +573,7 @@ MUTATIONS += [
     dict(id="C04-generate-params-swapped", prop="C04", file=KFF, old="            r: params.r(),\n            p: params.p(),", new="            r: params.p(),\n            p: params.r(),"),
     dict(id="C04-generate-salt-after-derivation", prop="C04", file=KFF, old="        let key = Key::from_slice(&key);\n\n        let json_byte_vec", new="        let key = Key::from_slice(&key);\n        rng().fill_bytes(&mut salt);\n\n        let json_byte_vec"),
 ]
+
+MUTATIONS += [
+    dict(id="C07-archiver-indexer-forgets", prop="C07", file="crates/core/src/archiver.rs", old="        let indexer = Indexer::new(be.clone()).into_shared();", new="        let indexer = Indexer::new_unindexed(be.clone()).into_shared();"),
+]
